@@ -434,12 +434,15 @@ def splitOn (sep : Char) : Str → List Str
       | [] => [[c]]
       | p :: ps => (c :: p) :: ps
 
-/-- `tags_str = (row.get('Tags') or '').strip()`; `[t.strip() for t in tags_str.split('|') if t.strip()] if tags_str else []` -/
+/-- `tags_str = tags_str.strip()`; `[t.strip() for t in tags_str.split('|') if t.strip()] if tags_str else []` -/
+def tagsOf (tagsStr : Str) : List Str :=
+  if (strip tagsStr).isEmpty then [] else ((splitOn '|' (strip tagsStr)).map strip).filter (fun x => !x.isEmpty)
+
+/-- `tags_str = row.get('Tags') or ''` (no such column, `None` and `''` all give `''`), then `tagsOf` -/
 def parseTags (cell : Option (Option Str)) : List Str :=
-  let t := strip (match cell with
+  tagsOf (match cell with
     | some (some v) => v
     | _ => [])
-  if t.isEmpty then [] else ((splitOn '|' t).map strip).filter (fun x => !x.isEmpty)
 
 inductive LoadErr
   | attributeError     -- `None.strip()`: the row is too short to reach the (last) `Pattern` column
@@ -497,15 +500,15 @@ def loadStep (o : Oracles) (names : List Str) (st : Except LoadErr (List Loaded)
 def loadRows (o : Oracles) (names : List Str) (rows : List (List Str)) : Except LoadErr (List Loaded) :=
   rows.foldl (loadStep o names) (.ok [])
 
-/-- the kept physical lines of the (newline-translated) text -/
-def keptLines (text : Str) : List Str := (physLines text).filter keepLine
-
-/-- `load_merchant_rules` on the text as the file object delivers it (newlines already translated): the filter on physical
-lines, `csv.DictReader(lines)` — first record = field names, records `[]` skipped —, the row loop -/
-def loadText (o : Oracles) (text : Str) : Except LoadErr (List Loaded) :=
-  match readCsv ',' (keptLines text).flatten with
+/-- `load_merchant_rules` from the physical lines on: the comment / blank filter (`lines = [line for line in f if …]`),
+`csv.DictReader(lines)` — first record = field names, records `[]` skipped —, the row loop -/
+def loadLines (o : Oracles) (lines : List Str) : Except LoadErr (List Loaded) :=
+  match readCsv ',' (lines.filter keepLine).flatten with
   | [] => .ok []
   | names :: rows => loadRows o names (rows.filter fun r => !r.isEmpty)
+
+/-- … on the text as the file object delivers it (newlines already translated) -/
+def loadText (o : Oracles) (text : Str) : Except LoadErr (List Loaded) := loadLines o (physLines text)
 
 /-- `load_merchant_rules(path)` for an existing file with the decoded content `raw` -/
 def loadRules (o : Oracles) (raw : Str) : Except LoadErr (List Loaded) := loadText o (univNl raw)
